@@ -1,6 +1,10 @@
 //! Manage iterative queries and their corresponding request/response.
 
+#[cfg(mainline_verif)]
+use crate::verif::{HashMap, HashSet};
+#[cfg(not(mainline_verif))]
 use std::collections::HashMap;
+#[cfg(not(mainline_verif))]
 use std::collections::HashSet;
 use std::net::SocketAddrV4;
 
@@ -73,6 +77,35 @@ impl From<&PutRequestSpecific> for GetRequestSpecific {
                     info_hash: args.info_hash,
                 })
             }
+        }
+    }
+}
+
+#[cfg(mainline_verif)]
+impl IterativeQuery {
+    pub(crate) fn verif_snapshot(&self) -> crate::verif::IterativeQuerySnap {
+        let mut visited: Vec<SocketAddrV4> = self.visited.iter().copied().collect();
+        visited.sort();
+        let mut votes: Vec<(SocketAddrV4, u32)> = self
+            .public_address_votes
+            .iter()
+            .map(|(a, c)| (*a, *c))
+            .collect();
+        votes.sort();
+        crate::verif::IterativeQuerySnap {
+            target: *self.target().as_bytes(),
+            kind: crate::core::verif_request_kind(&self.request.request_type),
+            visited,
+            inflight_tids: self.inflight_requests.clone(),
+            closest: self.closest.nodes().iter().map(|n| n.verif_snapshot()).collect(),
+            responders: self
+                .responders
+                .nodes()
+                .iter()
+                .map(|n| n.verif_snapshot())
+                .collect(),
+            responses: self.responses.len(),
+            votes,
         }
     }
 }
